@@ -18,7 +18,9 @@ RULE = ("every script-management operation (havespace, listscripts, getscript, p
         "checkscript, deletescript, renamescript native, setactive, capability, logout) x "
         "names/contents from an alphabet of special fragments (double quote, backslash, CR, "
         "LF, CRLF, NUL, braces, {5} {5+} {3+}CRLFabc look-alikes, multi-byte text, empty, "
-        "1000 bytes, injected second commands) composed 1-3 at a time x sizes 0..2^63. "
+        "1000 bytes, injected second commands) composed 1-3 at a time, plus values of 511..2048 "
+        "octets around the 1024-octet quoted/literal switch holding 0..1024 characters that "
+        "need escaping or are multi-byte, x sizes 0..2^63. "
         "Non-trivial = call with at least one argument; distinct = distinct (op, args).")
 ASSUMPTIONS = [
     "strict parser in rv/msmodel.py (quoted strings with only \\\\ and \\\" escapes and no "
@@ -28,7 +30,8 @@ ASSUMPTIONS = [
     "UTF-8 encoding): the only demand there is a refusal (Error or UnicodeEncodeError) with "
     "nothing written",
 ]
-FLOORS = {"quick": {"calls": 100000, "calls-with-special-values": 50000},
+FLOORS = {"quick": {"calls": 100000, "calls-with-special-values": 50000,
+                    "calls-with-boundary-length-values": 3000},
           "thorough": {"calls": 9000000, "calls-with-special-values": 4000000}}
 SHARD_TIMEOUT = {"quick": 600, "thorough": 3000}
 
@@ -47,7 +50,30 @@ def plan(tier, seed):
             for i, (s, e) in enumerate(split(n, k))]
 
 
+def boundary_value(rng):
+    """UTF-8 length around the 1024-octet switch from quoted string to literal, with a
+    chosen number of characters that need escaping / are multi-byte (so that raw length,
+    escaped length and character count fall on different sides of the limit)"""
+    total = rng.choice([511, 512, 513, 600, 683, 1000, 1020, 1022, 1023, 1024, 1025, 1026,
+                        1030, 2048])
+    special = rng.choice(['"', "\\", '\\"', "é", '"é', "日"])
+    k = rng.choice([0, 1, 2, 4, 12, 100, 300, 341, 512, 513, 600, 1024])
+    out = ""
+    while k > 0 and len((out + special).encode("utf-8")) <= total:
+        out += special
+        k -= 1
+    pad = total - len(out.encode("utf-8"))
+    pos = rng.choice(["front", "back", "middle"])
+    if pos == "front":
+        return "x" * pad + out
+    if pos == "back":
+        return out + "x" * pad
+    return "x" * (pad // 2) + out + "x" * (pad - pad // 2)
+
+
 def value(rng):
+    if rng.random() < 0.04:
+        return boundary_value(rng)
     k = rng.choice([1, 1, 1, 2, 2, 3])
     v = "".join(rng.choice(FRAGS) for _ in range(k))
     if rng.random() < 0.02:
@@ -70,6 +96,8 @@ def trigger_of(vals):
             t.add("nul")
         if re.match(r"\{\d+\+?\}", v):
             t.add("literal-lookalike")
+        if len(v.encode("utf-8", "surrogatepass")) >= 500:
+            t.add("long")
     return "+".join(sorted(t)) or "plain"
 
 
@@ -170,6 +198,9 @@ def run_shard(tier, shard, res: Result):
         trig = trigger_of(args)
         if trig != "plain":
             res.count("calls-with-special-values")
+        if any(isinstance(a, str) and 1000 <= len(a.encode("utf-8", "surrogatepass")) <= 1030
+               for a in args):
+            res.count("calls-with-boundary-length-values")
         res.observe("triggers", trig)
         res.observe("ops", op)
         res.case(repr((op, args)), nontrivial=bool(args))
